@@ -31,8 +31,59 @@ Proof.
     destruct (IH vs ltac:(lia) Hin) as (i & Hi & H1 & H2). exists (S i). cbn. split; [lia|]. split; assumption.
 Qed.
 
+(* the declarative resolver itself is invariant under renaming by declaration, for ALL binding programs:
+   f gives every declaration (a target TBind s a x of the program) a new name, injectively and outside the
+   names of the program; the program whose occurrences are renamed after their targets resolves to the same
+   targets, under the new names *)
+Theorem spec_rename_all (p : prog) (f : nat -> bool -> Z -> Z) :
+  let ts := spec_resolve p in
+  (forall s a x t b y, In (TBind s a x) ts -> In (TBind t b y) ts -> f s a x = f t b y -> s = t /\ a = b /\ x = y) ->
+  (forall s a x, In (TBind s a x) ts -> ~ In (f s a x) (allnames p)) ->
+  spec_resolve (rename_prog (map (newname f) ts) p) = map (retarget f) ts.
+Proof.
+  cbn zeta. intros f_inj f_fresh.
+  set (ts := spec_resolve p) in *.
+  set (D := fun (s : nat) (a : bool) (x : Z) => In (TBind s a x) ts).
+  pose proof (resolve_rename f (allnames p) D f_inj f_fresh p
+                [(O, false, vardecls p ++ lexdecls p)] O O false 1%nat []) as Hren.
+  fold (spec_resolve p) in Hren. fold ts in Hren.
+  assert (Hok0 : env_ok [(O, false, vardecls p ++ lexdecls p)] 1).
+  { split; [cbn; constructor; [intros []|constructor]|]. intros s a [E|[]]. inversion E. lia. }
+  assert (HD0 : env_D D [(O, false, vardecls p ++ lexdecls p)]).
+  { intros s a names x [E|[]] Hx. inversion E; subst. unfold D, ts, spec_resolve. apply in_app_iff in Hx. destruct Hx as [Hx|Hx].
+    - apply (vardecls_targets p). exact Hx.
+    - apply (lexdecls_targets p). exact Hx. }
+  assert (HDt : Forall (Dt D) ts).
+  { apply Forall_forall. intros [x|s a x] Hin; [exact I|exact Hin]. }
+  specialize (Hren Hok0 HD0 (incl_refl _) HDt). rewrite app_nil_r in Hren.
+  unfold rename_prog. destruct (rename_with (map (newname f) ts) p) as [p' l'] eqn:Ep. cbn [fst].
+  destruct Hren as (_ & Hres & Hlex & Hvard & _).
+  unfold spec_resolve at 1. rewrite Hlex, Hvard, <- map_app.
+  change [(O, false, map (f O false) (vardecls p ++ lexdecls p))] with (ren_env f [(O, false, vardecls p ++ lexdecls p)]).
+  rewrite Hres. reflexivity.
+Qed.
+
+(* satisfiable, on a program with every construct: loop head, catch, class and function expression names,
+   x => ..., a parenthesised non-arrow *)
+Definition example_prog_all : prog :=
+  Decl DLex 1 (For (Decl DLex 2 (Ref 1 Done)) (Ref 2 (Decl DLex 3 Done))
+  (Catch (Decl DCatch 4 Done) (Ref 4 (Decl DVar 5 Done))
+  (Func (Some 6) (Decl DParam 7 (Ref 1 Done)) (Ref 6 (Ref 7 Done))
+  (Class (Some 8) (Func None Done (Ref 8 (Ref 9 Done)) Done)
+  (ArrowId 10 (Ref 10 (Ref 5 Done))
+  (Paren (Ref 1 (PRef 11 Done)) (Ref 11 Done))))))).
+
+Example spec_rename_all_example :
+  let p := example_prog_all in
+  let f := fun (s : nat) (a : bool) (x : Z) => 100 + 40 * Z.of_nat s + (if a then 20 else 0) + x in
+  let ts := spec_resolve p in
+  forallb (fun t => match t with TGlobal _ => true | TBind s a x => negb (mem (f s a x) (allnames p)) end) ts = true
+  /\ spec_resolve (rename_prog (map (newname f) ts) p) = map (retarget f) ts
+  /\ program_ok p = true.
+Proof. vm_compute. repeat split; reflexivity. Qed.
+
 Theorem rename_alpha_core (p : prog) (rho : nat -> Z) :
-  core p = true -> program_ok p = true -> Z.of_nat (occurrences p) < 65536 ->
+  core_d p = true -> program_ok p = true -> Z.of_nat (occurrences p) < 65536 ->
   exists ps,
     run_program p = Running ps /\
     let st := pst ps in
@@ -46,12 +97,12 @@ Theorem rename_alpha_core (p : prog) (rho : nat -> Z) :
     (forall i, (i < length vs)%nat -> vdecl (vget st (nth i vs O)) = NoDecl -> rho (nth i vs O) = vname (vget st (nth i vs O))) ->
     (* the program with every occurrence renamed after its Var has the same binding structure *)
     let p' := rename_prog (map rho vs) p in
-    core p' = true /\
+    core_d p' = true /\ (core p = true -> core p' = true) /\
     spec_resolve p' =
       map (fun vt => match snd vt with TGlobal x => TGlobal x | TBind s a _ => TBind s a (rho (fst vt)) end) (combine vs ts).
 Proof.
   intros Hc Hok Hocc.
-  destruct (resolution_correct_core p (core_core_d p Hc) Hok Hocc) as (ps & Hrun & R).
+  destruct (resolution_correct_core p Hc Hok Hocc) as (ps & Hrun & R).
   exists ps. split; [exact Hrun|]. cbn zeta in *.
   set (st := pst ps) in *. set (vs := map (root_of st) (rev (plog ps))) in *. set (ts := spec_resolve p) in *.
   destruct R as (Rlen & Riff & Rglob & Rbound & _).
@@ -86,22 +137,22 @@ Proof.
     destruct (nth i ts (TGlobal 0)) as [x|s a x] eqn:Hti; cbn [newname].
     - destruct (Rglob i x Hiv Hti) as (_ & Hd & Hn). rewrite (Hkeep i Hiv Hd). symmetry. exact Hn.
     - unfold f. rewrite (Hvar i s a x Hiv Hti). reflexivity. }
-  pose proof (resolve_rename f (allnames p) D f_inj f_fresh p Hc
+  pose proof (resolve_rename f (allnames p) D f_inj f_fresh p
                 [(O, false, vardecls p ++ lexdecls p)] O O false 1%nat []) as Hren.
   fold (spec_resolve p) in Hren. fold ts in Hren.
   assert (Hok0 : env_ok [(O, false, vardecls p ++ lexdecls p)] 1).
   { split; [cbn; constructor; [intros []|constructor]|]. intros s a [E|[]]. inversion E. lia. }
   assert (HD0 : env_D D [(O, false, vardecls p ++ lexdecls p)]).
   { intros s a names x [E|[]] Hx. inversion E; subst. unfold D, ts, spec_resolve. apply in_app_iff in Hx. destruct Hx as [Hx|Hx].
-    - apply (vardecls_targets p Hc). exact Hx.
-    - apply (lexdecls_targets p Hc). exact Hx. }
-  specialize (Hren Hok0 HD0 ltac:(lia) (incl_refl _)).
+    - apply (vardecls_targets p). exact Hx.
+    - apply (lexdecls_targets p). exact Hx. }
+  specialize (Hren Hok0 HD0 (incl_refl _)).
   assert (HDt : Forall (Dt D) ts).
   { apply Forall_forall. intros [x|s a x] Hin; [exact I|exact Hin]. }
   specialize (Hren HDt). rewrite app_nil_r, Enames in Hren.
   unfold rename_prog. destruct (rename_with (map rho vs) p) as [p' l'] eqn:Ep. cbn [fst].
-  destruct Hren as (_ & Hcore & Hres & Hlex & Hvard).
-  split; [exact Hcore|].
+  destruct Hren as (_ & Hres & Hlex & Hvard & _ & _ & _ & _ & _ & Hcored & _ & Hcore).
+  split; [exact (Hcored Hc)|]. split; [exact Hcore|].
   unfold spec_resolve at 1. rewrite Hlex, Hvard, <- map_app.
   change [(O, false, map (f O false) (vardecls p ++ lexdecls p))] with (ren_env f [(O, false, vardecls p ++ lexdecls p)]).
   rewrite Hres. cbn [fst].
@@ -119,7 +170,19 @@ Proof.
   unfold f. rewrite (Hvar i s a x Hiv Hti). reflexivity.
 Qed.
 
-(* the hypotheses are satisfiable: on the example program of Main.v, number the Vars 100, 101, ... *)
+(* the hypotheses are satisfiable: on the example programs of Main.v, number the Vars 100, 101, ... *)
+Example rename_example_d :
+  let p := example_prog_d in
+  match occurrence_vars p with
+  | Some vs =>
+      let st := match run_program p with Running ps => pst ps | _ => empty_state end in
+      let rho := fun v => if vdecl (vget st v) =? NoDecl then vname (vget st v) else 100 + Z.of_nat v in
+      canon target_eqb (spec_resolve (rename_prog (map rho vs) p)) = canon target_eqb (spec_resolve p)
+      /\ program_ok (rename_prog (map rho vs) p) = true /\ core_d (rename_prog (map rho vs) p) = true
+  | None => False
+  end.
+Proof. vm_compute. repeat split; reflexivity. Qed.
+
 Example rename_example :
   let p := example_prog in
   match occurrence_vars p with
